@@ -359,3 +359,37 @@ func VerifC12_values() {
 	got2, _ := o.GetProperty(key).(*vfKeyT)
 	vfAssert(got2 != nil && got2.n == 6, "get-returns-the-value-set-last")
 }
+
+// VerifC12_typednil: a typed nil (nil pointer, nil slice, nil map) is a value like any other: the
+// get returns it, with its type, and it replaces what was there; only untyped nil clears.
+func VerifC12_typednil() {
+	key := &vfKeyT{60}
+	t := New()
+	t.AddHeaders("h")
+	t.AddRowItems("a")
+	cell, _ := t.CellAt(CellLocation{Row: 1, Column: 1})
+	owners := []PropertyOwner{t, t.Column(0), t.Column(1), t.AllRows()[0], cell}
+	o := owners[vfChoice("owner", len(owners))]
+	if vfChoice("set-before", 2) == 1 {
+		o.SetProperty(key, &vfKeyT{5})
+	}
+	switch vfChoice("kind", 3) {
+	case 0:
+		var none *vfKeyT
+		o.SetProperty(key, none)
+		got, ok := o.GetProperty(key).(*vfKeyT)
+		vfAssert(ok && got == nil, "get-returns-the-value-set-last")
+	case 1:
+		var none []string
+		o.SetProperty(key, none)
+		got, ok := o.GetProperty(key).([]string)
+		vfAssert(ok && got == nil, "get-returns-the-value-set-last")
+	case 2:
+		var none map[string]int
+		o.SetProperty(key, none)
+		got, ok := o.GetProperty(key).(map[string]int)
+		vfAssert(ok && got == nil, "get-returns-the-value-set-last")
+	}
+	o.SetProperty(key, nil)
+	vfAssert(o.GetProperty(key) == nil, "nil-if-nil-was-set-last")
+}
